@@ -1006,7 +1006,40 @@ class IidCanon(Comp):
         return None, "path %r of %s: implementation %s, model (instanceid_path2str as coded) %s" % (unhex(f[2]), f[1], o, m)
 
 
-ALL = [EnumStore, BitsStore, BinStore, StrLenStore, UnionStore, Cmp2, Sort2, Ip4PrefixHost, IidCanon]
+class IdRefStore(Comp):
+    """identityref {base ba; base bb;}: lyd_new_term, lyd_value_compare and sorted insertion vs IdRef.idref_store / idref_canon /
+    idref_compare / idref_sort on the identities of the test module (JSON value format: module names as prefixes)"""
+    name = "t2-idref"
+    driver = "t_types2"
+    slice = "types2"
+
+    def gen(self, rng, tier, scale=1.0):
+        names = [b"iab", b"iab2", b"ia", b"ib", b"ba", b"bb", b"zz", b"IAB", b"iab ", b" iab", b"", b"i ab", b"iab3", b"ia:b"]
+        vals = []
+        for nm in names:
+            vals += [nm, b"types2:" + nm, b":" + nm, b"t2:" + nm, b"types2::" + nm, b"ietf-inet-types:" + nm, b"xx:" + nm, b"types2:" + nm + b":x"]
+        vals += [b":", b"::", b"types2:", b"types2", b" types2:iab", b"types2 :iab", b"Types2:iab"]
+        vals += mutated(rng, [b"types2:iab", b"types2:iab2", b"iab"], self.n(tier, 60, 3000, scale), b"types2:iab ")
+        vals = [v for v in vals if b"\0" not in v]
+        L = ["tv\tidr\t%s" % hexs(v) for v in vals]
+        good = [b"iab", b"types2:iab", b"iab2", b"types2:iab2", b":iab", b":iab2", b"ia", b"zz"]
+        for a in good:
+            for b in good:
+                L.append("cmp\tidr\t%s\t%s" % (hexs(a), hexs(b)))
+                L.append("srt\tidr\t%s\t%s" % (hexs(a), hexs(b)))
+        L.append("srt\tidr\t%s" % "\t".join(hexs(x) for x in (b"iab2", b"iab", b"types2:iab2", b":iab")))
+        return L
+
+    def norm(self, line, out):
+        return out.split(" SINGLE")[0] if line.startswith("cmp") else out
+
+    def witness(self, line, m, o):
+        f = line.split("\t")
+        return None, "%s %r on identityref {base ba; base bb;}: implementation %s, model (identityref.c as coded) %s" % (
+            f[0], [unhex(x) for x in f[2:]], o, m)
+
+
+ALL = [EnumStore, BitsStore, BinStore, StrLenStore, UnionStore, Cmp2, Sort2, Ip4PrefixHost, IidCanon, IdRefStore]
 
 
 # ------------------------------------------------------------------------------------------------
